@@ -1,8 +1,35 @@
 import Py4hwV.Drv.Proto
-import Py4hwV.Net.Clock
+import Py4hwV.Net.ClockDom
 /- C10 driver.   chain | <ints, 0 = no driver on that object>   ->  driver id or E (exception)
-                 group | d:k,d:k,...                             ->  d=k,k;d=k   (dict order) -/
+                 group | d:k,d:k,...                             ->  d=k,k;d=k   (dict order)
+   with the full ClockDriver records (token `_` = no driver on that object, else obj:name:base:wire:enable, 0 = None):
+                 chainx | tok,tok,...                            ->  identity of the driver found, or E
+                 tree | parent ids (-1 = root) | tok per object | queried objects   ->  identity found per query (E = raises)
+                 domains | k=tok,tok;k=tok,...                   ->  E | obj/enable=k,k;obj/enable=k   (dict order, enable `_` = none) -/
 open Proto Net
+
+def optNat (s : String) : Option Nat :=
+  match (trim s).toNat? with
+  | some 0 => none
+  | some n => some n
+  | none => none
+
+def parseDrv (tok : String) : Option Drv :=
+  match (trim tok).splitOn ":" with
+  | [o, nm, b, w, e] =>
+    match (trim o).toNat? with
+    | some ob => some { obj := ob, name := nm, base := optNat b, wire := optNat w, enable := optNat e }
+    | none => none
+  | _ => none
+
+def parseChain (s : String) : List (Option Drv) :=
+  if (trim s).isEmpty then [] else ((trim s).splitOn ",").map parseDrv
+
+def showObj (o : Option Drv) : String :=
+  match o with
+  | some d => toString d.obj
+  | none => "E"
+
 def handle (line : String) : String :=
   match fields line with
   | ["chain", c] =>
@@ -12,5 +39,23 @@ def handle (line : String) : String :=
   | ["group", g] =>
     let ps := (parsePairs g).map fun (d, k) => (d, k.toNat)
     ";".intercalate ((group ps).map fun (d, l) => s!"{d}={showNats l}")
+  | ["chainx", c] => showObj (driverOf (parseChain c))
+  | ["tree", ps, ds, qs] =>
+    let parents := (parseInts ps).toArray
+    let drvs := (parseChain ds).toArray
+    let h : Hier := { parent := fun o => match parents[o]? with
+                                         | some p => if p < 0 then none else some p.toNat
+                                         | none => none,
+                      drv := fun o => (drvs[o]?).join }
+    ",".intercalate ((parseNats qs).map fun q => showObj (getObjectClockDriver h parents.size q))
+  | ["domains", ls] =>
+    let leaves := if (trim ls).isEmpty then [] else ((trim ls).splitOn ";").filterMap fun kc =>
+      match kc.splitOn "=" with
+      | [k, c] => (trim k).toNat?.map fun kk => (kk, parseChain c)
+      | _ => none
+    match domains leaves with
+    | none => "E"
+    | some g => ";".intercalate (g.map fun (d, l) =>
+        s!"{d.obj}/{match d.enable with | some e => toString e | none => "_"}={showNats l}")
   | _ => "bad-op"
 def main : IO Unit := Proto.run handle
